@@ -144,6 +144,15 @@ pub fn step(ds: &DualState, st: &mut SplineState, t: &[&str]) -> Option<String> 
                 None => "none".to_string(),
             }
         }
+        ["spshape", id] => {
+            let obj = st.sp.get(&id.parse().ok()?)?;
+            let (k, t, n, c) = match obj {
+                SplineObj::F(s) => (*s.k(), s.t().len(), *s.n(), s.c().as_ref().map(|c| c.len())),
+                SplineObj::D(s) => (*s.k(), s.t().len(), *s.n(), s.c().as_ref().map(|c| c.len())),
+                SplineObj::D2(s) => (*s.k(), s.t().len(), *s.n(), s.c().as_ref().map(|c| c.len())),
+            };
+            format!("k={} t={} n={} c={}", k, t, n, c.map_or("-".to_string(), |x| x.to_string()))
+        }
         _ => return None,
     })
 }
